@@ -58,7 +58,9 @@ TCompleted == /\ Is("completed") /\ UNCHANGED <<utxo, dumped, bals, hs, cbv>>
               /\ (cbv = "balances" => bals = {utxo[o].addr : o \in DOMAIN utxo})
 TExit == Is("exit") /\ UNCHANGED <<utxo, dumped, bals, hs, cbv>>
 
-TNext == (TBegin \/ TSpend \/ TCreate \/ TDeliver \/ TOnComplete \/ TDumpRow \/ TBalRow \/ TCompleted \/ TExit) /\ UNCHANGED rest
+KnownU == {"cmd", "spend", "create", "deliver", "on_complete", "dump_row", "bal_row", "completed", "exit"}
+TOther == l <= N /\ Ev[l].ev \notin KnownU /\ l' = l + 1 /\ UNCHANGED <<utxo, dumped, bals, hs, cbv>>
+TNext == (TOther \/ TBegin \/ TSpend \/ TCreate \/ TDeliver \/ TOnComplete \/ TDumpRow \/ TBalRow \/ TCompleted \/ TExit) /\ UNCHANGED rest
 TSpec == TInit /\ [][TNext]_tvars
 
 TraceAccepted == IF TLCGet("stats").diameter - 1 = N THEN TRUE
